@@ -383,6 +383,19 @@ class QueryScheduler:
             pointer.alias, pointer.name, ttl, expire_time_millis, refresh_time_millis
         )
         self._schedule_ptr_query(scheduled_ptr_query)
+        # If the scheduler is already armed for a later time, re-arm it
+        # so the refresh for this pointer is not missed.
+        next_run = self._next_run
+        if (
+            next_run is not None
+            and self._loop is not None
+            and self._startup_queries_sent >= STARTUP_QUERIES
+            and millis_to_seconds(refresh_time_millis) < next_run.when()
+        ):
+            next_run.cancel()
+            self._next_run = self._loop.call_at(
+                millis_to_seconds(refresh_time_millis), self._process_ready_types
+            )
 
     def _schedule_ptr_query(self, scheduled_query: _ScheduledPTRQuery) -> None:
         """Schedule a query for a pointer."""
@@ -496,6 +509,12 @@ class QueryScheduler:
 
         for query in schedule_rescue:
             self.schedule_rescue_query(query, now_millis, RESCUE_RECORD_RETRY_TTL_PERCENTAGE)
+
+        if schedule_rescue:
+            # A rescue query may now be due before the entry found above
+            while self._query_heap and self._query_heap[0].cancelled:
+                heappop(self._query_heap)
+            next_scheduled = self._query_heap[0] if self._query_heap else None
 
         if ready_types:
             self.async_send_ready_queries(False, now_millis, ready_types)
